@@ -98,7 +98,19 @@ fn select_max_index<T, Cmp: Fn(&T, &T) -> std::cmp::Ordering>(
         iter: impl Iterator<Item = &'a T>,
         compare: impl Fn(&'a T, &'a T) -> std::cmp::Ordering,
     ) -> usize {
-        let (index, _) = iter.enumerate().max_by(|a, b| compare(a.1, b.1)).unwrap(); // Ok because we checked tensor is not empty.
+        // Select the first of several equally-ranked elements, as ONNX
+        // specifies for `select_last_index=0`. nb. `Iterator::max_by` would
+        // return the last.
+        let (index, _) = iter
+            .enumerate()
+            .reduce(|best, item| {
+                if compare(item.1, best.1) == std::cmp::Ordering::Greater {
+                    item
+                } else {
+                    best
+                }
+            })
+            .unwrap(); // Ok because we checked tensor is not empty.
         index
     }
 
